@@ -17,6 +17,9 @@ RULE = ("operation scripts for a private libdbus client connection (1..4 threads
         "read_write_dispatch / read_write / dispatch, the application's timer duty dbus_timeout_handle, polling "
         "get_completed, steal_reply) against a scripted Python peer whose per-call reply script permutes reply order, "
         "duplicates, omits, answers unknown serials, sends errors, sends SIGNALs / METHOD_CALLs that carry the call's serial as REPLY_SERIAL (not replies), delays, batches and closes the socket at step i; "
+        "plus multi-blocker scripts: 2..4 threads block (block / send_with_reply_and_block, timeouts none or 20..30 s) on different calls of one "
+        "connection, the peer answers all of them in ONE write() in an order of its own and then stays silent - every blocking wait must "
+        "return (harness monitor: 5 s after the first one returned; Python kills the harness after 12 s); "
         "each script runs on an ASan+UBSan build and on a TSan build; the completion log (atomic sequence numbers) is "
         "judged by vf/models/pending_client.py. distinct = per-call (how it completed, cancel relation, observers, "
         "timeout class, what the peer sent, connection lost, threads>1, flavor)")
@@ -122,6 +125,69 @@ def make_case(rng):
             "peer": {"calls": pcalls, "hold": hold, "close": close, "noise": noise}}
 
 
+# Multi-blocker one-write cases.  The timeouts are none (DBUS_TIMEOUT_INFINITE) or so long that within the watch only
+# the peer's reply can end a blocking wait; the watch is far below them and far above any scheduling delay.
+MB_FINITE = [20000, 25000, 30000]
+MB_WATCH_MS = 5000          # harness monitor: after the first blocking wait of the case returned
+MB_BACKSTOP_S = 12.0        # Python side: after the peer's one write(), when the harness says nothing at all
+# exploration only (VERIF_C17_MB_EXPLORE=1): no barrier between the sends and the blocking waits
+MB_EXPLORE = os.environ.get("VERIF_C17_MB_EXPLORE", "0") == "1"
+
+
+def make_mb_case(rng):
+    k = rng.choice([2, 2, 3, 3, 4])
+    tclass = rng.choice(["inf", "inf", "fin", "mix"])
+    if tclass == "inf":
+        timeouts = [INFINITE] * k
+    elif tclass == "fin":
+        timeouts = [rng.choice(MB_FINITE) for _ in range(k)]
+    else:
+        timeouts = [rng.choice([INFINITE] + MB_FINITE) for _ in range(k)]
+        a, b = rng.sample(range(k), 2)
+        timeouts[a] = INFINITE
+        timeouts[b] = rng.choice(MB_FINITE)
+    # Every call is on the socket before any thread starts a blocking wait (barrier op A): a message queued while another
+    # thread sleeps in its blocking wait is not written until that wait ends - a different matter, see MB_EXPLORE.
+    first_sends = rng.random() < 0.3        # thread 1 sends every call, the others only block
+    w_thread = rng.randrange(k) if rng.random() < 0.3 else None    # this one uses send_with_reply_and_block (and is the first reader)
+    # the order of the replies inside the one write(): a permutation that is not the call order
+    order = list(range(k))
+    while order == list(range(k)):
+        rng.shuffle(order)
+    pcalls = {}
+    seqs = [["0J%d" % MB_WATCH_MS]]
+    head = []
+    n_s = k - (1 if w_thread is not None else 0)
+    for c in range(k):
+        th = c + 1
+        pcalls[str(c)] = [[rng.choice(["ret", "ret", "ret", "err"]), "H", 0, order.index(c)]]
+        seq = []
+        if c == w_thread:
+            if not MB_EXPLORE:
+                seq.append("%dA%d,0" % (th, n_s))
+            seq.append("%dW%d,%d" % (th, c, timeouts[c]))
+        else:
+            snd = "%dS%d,%d,%d" % (1 if first_sends else th, c, timeouts[c], rng.choice([0, 0, 1, 2]))
+            (head if first_sends else seq).append(snd)
+            if not MB_EXPLORE:
+                seq.append("%dA%d,%d" % (th, n_s, int(w_thread is not None)))
+            z = rng.choice([0, 0, 300, 2000, 10000, 30000])
+            if z:
+                seq.append("%dZ%d" % (th, z))
+            seq.append("%dB%d" % (th, c))
+            if rng.random() < 0.5:
+                seq.append("%dG%d" % (th, c))
+            if rng.random() < 0.4:
+                seq.append("%dT%d" % (th, c))
+        seqs.append(seq)
+    seqs[1] = head + seqs[1]
+    ops = [o for seq in seqs for o in seq]
+    return {"nthreads": k + 1, "ncalls": k, "min_run_ms": 0, "drain_ms": 8000, "est_ms": 200, "peer_ms": 200, "ops": ";".join(ops),
+            "peer": {"calls": pcalls, "hold": k, "hold_delay": rng.choice([30, 60, 120]), "hold_noise": int(rng.random() < 0.25),
+                     "ack": w_thread, "close": None, "noise": int(rng.random() < 0.3)},
+            "mb": {"k": k, "watch_ms": MB_WATCH_MS, "timeouts": timeouts, "order": order, "swrb": w_thread}}
+
+
 def case_line(case):
     return "%d %d %d %d %s" % (case["nthreads"], case["ncalls"], case["min_run_ms"], case["drain_ms"], case["ops"])
 
@@ -135,6 +201,7 @@ class Script(object):
         self.held = []
         self.fin_serial = None
         self.fin_answered = False
+        self.joined = None          # the bytes of the one write() that carries every held reply
 
     def maybe_finish(self, pr):
         """answer the harness's final barrier call once nothing scripted is left to be written"""
@@ -152,6 +219,8 @@ class Script(object):
         self.n += 1
         if self.p.get("noise") and self.n == 1:
             pr.send_at(0, vpeer.signal(pr))
+        if self.p.get("ack") == idx:
+            pr.send_at(0, vpeer.signal(pr))      # tells the threads at the barrier that this call has arrived
         for kind, delay, copy, prio in self.p["calls"].get(str(idx), []):
             if kind == "ret":
                 data = vpeer.method_return(pr, m.serial, b"uu", [idx, copy])
@@ -168,7 +237,11 @@ class Script(object):
             else:
                 pr.send_at(delay / 1000.0, data)
         if self.p.get("hold") and self.n == self.p["hold"] and self.held:
-            pr.send_at(0, b"".join(d for _, _, d in sorted(self.held)))
+            parts = [d for _, _, d in sorted(self.held)]
+            if self.p.get("hold_noise"):
+                parts.insert(len(parts) // 2, vpeer.signal(pr))
+            self.joined = b"".join(parts)
+            pr.send_at(self.p.get("hold_delay", 0) / 1000.0, self.joined)
             self.held = []
         cl = self.p.get("close")
         if cl and self.n == cl[0]:
@@ -179,8 +252,10 @@ def peer_log(pr):
     """decode what was really written to the socket (independent codec)"""
     log = model.PeerLog()
     log.closed = pr.closed_by_us
-    for _, data in pr.sent_log:
+    log.reply_writes = []       # per write() that carried replies: (time after the write, [idx markers in write order])
+    for t_w, data in pr.sent_log:
         off = 0
+        in_this = []
         while off + 16 <= len(data):
             try:
                 n = wire.frame_length(data[off:])
@@ -196,6 +271,10 @@ def peer_log(pr):
                 body = [x for x in m.body if isinstance(x, int)]
                 log.add(m.field(wire.F_REPLY_SERIAL), m.type, name.decode() if name else "", body[0] if body else None,
                         body[1] if len(body) > 1 else None)
+                if body and body[0] < 1000:
+                    in_this.append(body[0])
+        if in_this:
+            log.reply_writes.append((t_w, in_this))
     return log
 
 
@@ -272,8 +351,23 @@ class Session(object):
         self.stop()
         self.peer.close()
 
-    def run_case(self, case, watchdog_s):
-        """-> (result dict or None, status 'ok'|'hang'|'died', peer log, stderr text of this case)"""
+    def _discard(self, kill=True):
+        if kill and self.proc.poll() is None:
+            self.proc.kill()
+        try:
+            self.proc.wait(timeout=20)
+        except subprocess.TimeoutExpired:
+            pass
+        rc = self.proc.returncode
+        self.proc.stdout.close()
+        self.errf.close()
+        self.proc = None
+        return rc
+
+    def run_case(self, case, watchdog_s, stacks=False):
+        """-> (result dict or None, status 'ok'|'hang'|'died'|'mb-stuck', peer log, stderr text of this case).
+        Multi-blocker cases: once the peer's one write() has happened the watchdog is MB_BACKSTOP_S after it; a harness that
+        reports stuck blocking waits (or says nothing) is killed here - its threads sit inside libdbus for good."""
         if self.proc is None or self.proc.poll() is not None:
             self.start()
         pr = self.peer
@@ -289,8 +383,15 @@ class Session(object):
         out = self.proc.stdout
         status = "ok"
         line = None
+        mb = case.get("mb")
+        t_written = None
         while line is None:
             now = time.monotonic()
+            if mb and t_written is None and sc.joined is not None:
+                for t_w, data in pr.sent_log:
+                    if data is sc.joined:
+                        t_written = t_w
+                        deadline = min(deadline, t_w + MB_BACKSTOP_S)
             if now > deadline:
                 status = "hang"
                 break
@@ -311,24 +412,37 @@ class Session(object):
         plog = peer_log(pr)
         perr = list(pr.protocol_errors)
         if status != "ok":
-            # get the stacks of a hung process before killing it
-            if status == "hang" and self.proc.poll() is None:
-                self.proc.kill()
-            try:
-                self.proc.wait(timeout=20)
-            except subprocess.TimeoutExpired:
-                pass
-            rc = self.proc.returncode
-            self.proc.stdout.close()
-            self.errf.close()
-            self.proc = None
-            return {"rc": rc, "protocol_errors": perr}, status, plog, self.new_stderr()
+            res = {"protocol_errors": perr}
+            if mb and status == "hang" and t_written is not None:
+                res["mb_silent_s"] = round(time.monotonic() - t_written, 1)
+                if stacks and self.proc.poll() is None:
+                    res["stacks"] = thread_stacks(self.proc.pid)
+            res["rc"] = self._discard(kill=(status == "hang"))
+            return res, status, plog, self.new_stderr()
         try:
             res = json.loads(line.decode("latin1"))
         except ValueError:
             res = {"unparseable": line[:200].decode("latin1")}
         res["protocol_errors"] = perr
+        if mb and t_written is not None:
+            res["peer_written_us"] = int(t_written * 1e6)       # time.monotonic() and the harness's clock are both CLOCK_MONOTONIC
+        if res.get("mb_stuck"):
+            if stacks and self.proc.poll() is None:
+                res["stacks"] = thread_stacks(self.proc.pid)
+            self._discard()
+            return res, "mb-stuck", plog, self.new_stderr()
         return res, "ok", plog, self.new_stderr()
+
+
+def thread_stacks(pid):
+    """the stacks of a harness whose threads are stuck, for the witness (best effort)"""
+    try:
+        out = subprocess.run(["gdb", "-p", str(pid), "-batch", "-nx", "-ex", "set pagination off", "-ex", "thread apply all bt 16"],
+                             stdin=subprocess.DEVNULL, stdout=subprocess.PIPE, stderr=subprocess.DEVNULL, timeout=60).stdout.decode("latin1")
+    except (OSError, subprocess.SubprocessError):
+        return ""
+    keep = [re.sub(r" \(([^()]|\([^()]*\))*\) ", " (...) ", ln)[:200] for ln in out.split("\n") if re.match(r"(Thread \d+|#\d+ )", ln)]
+    return "\n".join(keep)[:8000]
 
 
 _tsan_frame = re.compile(r"#\d+ (\S+) (\S+?):\d+")
@@ -461,6 +575,30 @@ def judge_case(part, flavor, case, res, status, plog, err, final):
         part.violation(report_key(kind, site, nth), "%s at %s in the %s harness (%d thread(s))" % (kind, site, flavor, nth),
                        dict(wit, kind=kind, site=site, stderr=text))
     judged_reports = [x for x in reports if x[0]]
+    mb = case.get("mb")
+    if status == "mb-stuck":
+        # the harness's monitor: a blocking wait has not returned MB_WATCH_MS after another one of the same write() did
+        part.count("mb-stuck-report")
+        if not final:
+            return True
+        findings, cnt = model.judge_multi_blocker_stuck(res, plog, mb)
+        part.counters.update(cnt)
+        for f in findings:
+            if f.cls == "INCONCLUSIVE-MB":
+                part.inconclusive.append(f.what)
+            else:
+                part.violation("%s:%s" % (PROP, f.cls), f.what + " (twice)", dict(wit, call=f.call, result=res,
+                                                                                peer_writes=[w for _, w in plog.reply_writes]))
+        return False
+    if status == "hang" and mb and res and res.get("mb_silent_s") is not None:
+        # not even the monitor reported: no blocking wait returned at all (or the monitor itself hangs inside libdbus)
+        part.count("mb-silent-after-write")
+        if not final:
+            return True
+        part.violation("%s:hang:no-blocker-returned-after-one-write" % PROP, "%.1f s after the peer wrote the replies to calls %r in one write() "
+                       "no blocking wait on that connection had returned and the harness's monitor was silent, twice"
+                       % (res["mb_silent_s"], [w for _, w in plog.reply_writes]), dict(wit, result=res, stderr=err[-3000:]))
+        return False
     if status == "hang":
         if not final:
             return True
@@ -484,6 +622,8 @@ def judge_case(part, flavor, case, res, status, plog, err, final):
         part.inconclusive.append("event log overflow")
     findings, sigs, cnt = model.judge(res, plog)
     part.counters.update(cnt)
+    if mb:
+        part.counters.update(model.judge_multi_blocker(res, plog, mb, [w for _, w in plog.reply_writes], res.get("peer_written_us")))
     mt = nth > 1
     for s in sigs:
         part.sig(s + (mt, flavor))
@@ -527,6 +667,13 @@ def _worker(args):
     part = report.Part()
     part.extra_orders = set()
     cases = [make_case(rng) for _ in range(count)]
+    # multi-blocker one-write cases on top (own generator stream: the ordinary cases of a seed stay what they were),
+    # spread between the ordinary ones because the harness process is reused from case to case
+    rng_mb = gen.rng_for(seed, PROP, "mb", shard)
+    n_mb = max(1, count // 9)
+    step = max(1, len(cases) // n_mb)
+    for j in range(n_mb):
+        cases.insert(min(len(cases), j * (step + 1) + step // 2), make_mb_case(rng_mb))
     rundir = tempfile.mkdtemp(prefix="verif-c17-")
     ses = Session(exe, rundir, flavor)
     try:
@@ -534,6 +681,13 @@ def _worker(args):
             part.evaluations += 1
             part.count("scripts:" + flavor)
             part.count("threads:%d" % case["nthreads"])
+            if case.get("mb"):
+                part.count("mb-cases")
+                part.count("mb-blockers", case["mb"]["k"])
+                if INFINITE in case["mb"]["timeouts"]:
+                    part.count("mb-cases:infinite")
+                if any(t != INFINITE for t in case["mb"]["timeouts"]):
+                    part.count("mb-cases:finite")
             t_case = time.monotonic()
             res, status, plog, err = ses.run_case(case, _watchdog(case))
             if time.monotonic() - t_case > 5.0:
@@ -543,7 +697,10 @@ def _worker(args):
             if judge_case(part, flavor, case, res, status, plog, err, final=False):
                 part.count("rerun-alone")
                 ses.stop()
-                res, status, plog, err = ses.run_case(case, _watchdog(case))
+                want_stacks = part.counters["stacks-taken"] < 2
+                res, status, plog, err = ses.run_case(case, _watchdog(case), stacks=want_stacks)
+                if res and res.get("stacks"):
+                    part.count("stacks-taken")
                 if not judge_case(part, flavor, case, res, status, plog, err, final=True):
                     part.count("rerun-alone-resolved")
             if shard == 0 and i < 2 and flavor == "asan":
@@ -588,7 +745,7 @@ def run(tier, seed, replay=None, scale=1.0):
                     res, status, plog, err = ses.run_case(case, _watchdog(case))
                     if judge_case(part, flavor, case, res, status, plog, err, final=False):
                         ses.stop()
-                        res, status, plog, err = ses.run_case(case, _watchdog(case))
+                        res, status, plog, err = ses.run_case(case, _watchdog(case), stacks=(rep == 0))
                         judge_case(part, flavor, case, res, status, plog, err, final=True)
             finally:
                 ses.close()
@@ -624,6 +781,16 @@ def run(tier, seed, replay=None, scale=1.0):
     r.require("timers-fired", 50 if full else 1)
     r.require("block", 100 if full else 1)
     r.require("swrb", 100 if full else 1)
+    # several blocking waits answered by one write(): cases run, with / without a timeout, and those where at least two
+    # threads were verifiably inside their blocking wait when the peer's single write() happened
+    r.require("mb-cases", 60 if full else 1)
+    r.require("mb-cases:infinite", 25 if full else 1)
+    r.require("mb-cases:finite", 15 if full else 1)
+    r.require("mb-one-write-verified", 60 if full else 1)
+    r.require("mb-reply-order-differs-from-call-order", 30 if full else 1)
+    r.require("mb-handover-cases", 40 if full else 1)
+    r.require("mb-handover-cases:infinite", 15 if full else 1)
+    r.require("mb-handover-cases:finite", 10 if full else 1)
     r.extra["flavors"] = ["asan", "tsan"]
     r.extra["timer_gate"] = timer_gate()
     r.extra["report_key_families_multithreaded"] = list(FAMILIES)
@@ -638,5 +805,10 @@ def run(tier, seed, replay=None, scale=1.0):
                      "the end of the peer's script is a logical barrier: a final call that the peer answers after its last scripted write",
                      "sanitizer/assertion reports of multi-threaded cases are keyed by family only (C17:mt:<family>); the site is in the witness",
                      "timestamps are used only in the direction a slow machine cannot fake (a timeout error earlier than the timeout)",
+                     "multi-blocker one-write cases: 'a reply that has arrived completes its call' is judged with a watch of %d ms that starts "
+                     "when the first blocking wait of the case returns (so the one write() has been read) and also needs %d wake-ups of the "
+                     "monitor thread itself; timeouts in these cases are none or >= %d ms, so within the watch only the reply can end a wait; "
+                     "a report is confirmed by a second run before it counts; Python kills the harness %.0f s after the write if it stays silent"
+                     % (MB_WATCH_MS, MB_WATCH_MS // 4, min(MB_FINITE), MB_BACKSTOP_S),
                      "TSan sees only the schedules that occurred; absence of a report is not absence of a race"]
     return r.finish()
